@@ -143,6 +143,17 @@ def run(ctx):
                 mn = T.obj_fields(leaf).get('mnemonic') if T.tag(leaf) == 'obj' else None
                 same_term(ob, mn, T.raw_op('MNEMONIC', hx), '%s.from_entropy_hex(h).mnemonic is mnemonic_from_entropy(h) for the caller\'s h, '
                           'unchanged' % cls.split('.')[-1], ffe.where)
+    # the random path refuses every bit count outside the five sizes as well (shared with C08.AMOUNT)
+    fbits = p.get_function('bip39.mnemonic_from_entropy_bits')
+    with ctx.obligation('C04.BITS', 'bip39.mnemonic_from_entropy_bits', None, fbits.where) as ob:
+        x = S('bits', type='int')
+        facts = Facts()
+        for _, b in PAIRS:
+            facts = facts.add(T.not_(T.eq(T.const(b), x)))
+        v, _ = ev.call_function('bip39.mnemonic_from_entropy_bits', [x], facts=facts)
+        ob.require(all(T.tag(l) == 'raise' for l in distinct_leaves(v)),
+                   'mnemonic_from_entropy_bits produces a sentence for a bit count outside {128,160,192,224,256} (e.g. 135 bits are '
+                   'silently floored to 16 bytes)', fbits.where, found=T.show(v, maxdepth=3))
     with ctx.obligation('C04.CALLERS', 'sentence producers', None, fme.where) as ob:
         for q in ('base_wallet.BaseWallet.from_entropy_hex', 'bip85.BIP85DeterministicEntropy.bip39_mnemonic',
                   'bip39.mnemonic_from_entropy_bits'):
